@@ -4,35 +4,53 @@
 (* real group.Execute* functions.  A case fixes everything the property   *)
 (* quantifies over: the strategy and entry point, the number of members,  *)
 (* each member's planned outcome, which members are cancellation-aware,   *)
+(* what kind of error each failing member returns (fk, see ek in          *)
+(* GroupContract: plain, context.Canceled/DeadlineExceeded bare, wrapped, *)
+(* as gRPC status -- independent of the state of the group's context),    *)
 (* and the schedule: `order` is the sequence in which the harness lets    *)
-(* the members return (0 = the caller cancels its own context).           *)
+(* the members return (0 = the caller cancels its own context, -1 = the   *)
+(* caller's deadline passes).                                             *)
 (*   Exhaustive: n in 0..MaxN x every outcome vector x every completion   *)
 (*     order x 6 strategies x {Direct, Execute}; for n <= AwareN also     *)
 (*     every set of cancellation-aware members x every position of a      *)
 (*     caller-side cancel.                                                *)
+(*     For n <= KindN: every assignment of error kinds to the failing     *)
+(*     members x every completion order x the group's context live, or    *)
+(*     cancelled / expired at every position x 6 strategies.              *)
 (*   Random: NRand cases with up to MaxRandN members, random aware sets,  *)
 (*     a caller-side cancel in about a third, also through the trait      *)
 (*     group servers (api "OnOff", "Light").                              *)
 (***************************************************************************)
 EXTENDS GroupContract, Json
 
-CONSTANTS MaxN, AwareN, NRand, MaxRandN
+CONSTANTS MaxN, AwareN, KindN, NRand, MaxRandN
 VARIABLE c
 
 Plain(n) == [m \in 1..n |-> FALSE]
+ErrKinds == {"plain", "canceled", "deadline", "wcanceled", "wdeadline", "gcanceled", "gdeadline"}
+PlainErrs(n) == [m \in 1..n |-> "plain"]
 InsertAt(s, k, x) == SubSeq(s, 1, k) \o <<x>> \o SubSeq(s, k + 1, Len(s))
 
 Exhaustive ==
-  UNION { { [kind |-> "exhaustive", strat |-> s, api |-> a, n |-> n, plan |-> p, aware |-> Plain(n), order |-> o] :
+  UNION { { [kind |-> "exhaustive", strat |-> s, api |-> a, n |-> n, plan |-> p, fk |-> PlainErrs(n), aware |-> Plain(n), order |-> o] :
               s \in Strategies, a \in {"Direct", "Execute"}, p \in [1..n -> BOOLEAN], o \in Permutations(1..n) }
           : n \in 0..MaxN }
 
 ExhaustiveAware ==
-  UNION { { [kind |-> "exhaustive-aware", strat |-> s, api |-> "Execute", n |-> n, plan |-> p, aware |-> w,
+  UNION { { [kind |-> "exhaustive-aware", strat |-> s, api |-> "Execute", n |-> n, plan |-> p, fk |-> PlainErrs(n), aware |-> w,
              order |-> IF k = -1 THEN o ELSE InsertAt(o, k, 0)] :
               s \in Strategies, p \in [1..n -> BOOLEAN], w \in [1..n -> BOOLEAN] \ {Plain(n)},
               o \in Permutations(1..n), k \in -1..n }
           : n \in 1..AwareN }
+
+\* (a succeeding member's kind is moot: "plain"; the all-plain assignments are in Exhaustive already)
+KindsFor(n, p) == {g \in [1..n -> ErrKinds] : (\A m \in 1..n : p[m] => g[m] = "plain") /\ g # PlainErrs(n)}
+ExhaustiveKinds ==
+  UNION { UNION { { [kind |-> "exhaustive-kinds", strat |-> s, api |-> "Execute", n |-> n, plan |-> p, fk |-> f, aware |-> Plain(n),
+                     order |-> IF k = -1 THEN o ELSE InsertAt(o, k, e)] :
+                      s \in Strategies, f \in KindsFor(n, p), o \in Permutations(1..n), k \in -1..n, e \in {0, -1} }
+                  : p \in [1..n -> BOOLEAN] }
+          : n \in 1..KindN }
 
 RECURSIVE RandPerm(_)
 RandPerm(S) == IF S = {} THEN <<>> ELSE LET x == RandomElement(S) IN <<x>> \o RandPerm(S \ {x})
@@ -45,10 +63,11 @@ Rand(k) ==
   IN [kind |-> "random", strat |-> RandomElement(Strategies),
       api |-> RandomElement({"Direct", "Execute", "Execute", "OnOff", "Light"}), n |-> n,
       plan |-> [m \in 1..n |-> RandomElement(1..100) <= pok],
+      fk |-> [m \in 1..n |-> IF RandomElement(1..2) = 1 THEN "plain" ELSE RandomElement(ErrKinds)],
       aware |-> [m \in 1..n |-> RandomElement(BOOLEAN)],
-      order |-> IF pcan THEN InsertAt(o, RandomElement(0..n), 0) ELSE o]
+      order |-> IF pcan THEN InsertAt(o, RandomElement(0..n), RandomElement({0, -1})) ELSE o]
 
-GenInit == c \in Exhaustive \cup ExhaustiveAware \cup { Rand(k) : k \in 1..NRand }
+GenInit == c \in Exhaustive \cup ExhaustiveAware \cup ExhaustiveKinds \cup { Rand(k) : k \in 1..NRand }
 GenNext == UNCHANGED c
 EmitCase == PrintT("CASE " \o ToJson(c))
 =============================================================================
